@@ -775,14 +775,20 @@ func RelockBehindSlowDeleteAnswer(L time.Duration) (out Outcome) {
 	la, lb := pa.NewLocker("x"), pb.NewLocker("x")
 	la.Lock()
 	second := make(chan time.Time, 1)
-	go func() { la.Lock(); second <- time.Now() }() // parks in the local wait
+	secondDone := make(chan struct{})
+	go func() { la.Lock(); second <- time.Now(); close(secondDone) }() // parks in the local wait
 	time.Sleep(L / 10)
 	unlocked := make(chan struct{})
 	go func() { la.Unlock(); close(unlocked) }()
 	if !Arrived(g, 10*time.Second) {
 		close(g.Release)
-		<-unlocked
-		<-second
+		for _, ch := range []<-chan struct{}{unlocked, secondDone} {
+			select {
+			case <-ch:
+			case <-time.After(20 * time.Second):
+				return Outcome{Skipped: "the Delete did not come, the Lockers did not get free"}
+			}
+		}
 		la.Unlock()
 		return Outcome{Skipped: "the Delete did not come"}
 	}
